@@ -32,7 +32,7 @@
 (* recorded from the repository's fixtures, which are parsed with ParseTlv  *)
 (* and rewritten type-agnostically (kinds from universal tags only).        *)
 (***************************************************************************)
-EXTENDS X690, TLC, Json, IOUtils
+EXTENDS X690ValueReader, TLC, Json, IOUtils
 
 CONSTANTS MaxSteps,   \* R: rewrite steps applied to a start tree
           AllCuts,    \* TRUE: every cut point of a string; FALSE: boundary cut points
@@ -381,6 +381,15 @@ ModelOkFor(s) ==
      /\ Len(s.b) = WfLen(gTree).n
 
 ModelOk == ModelOkFor(Ser2(gTree))
+
+\* C04 on the model, at the level of values: the independently written BER value reader (X690ValueReader) reads
+\* every reachable re-serialisation of a TypeGen value back as that value
+VariantReadsBack ==
+  ~IsRaw(gCase) =>
+     LET c == Cases[gCase]
+         s == Ser2(gTree)
+         r == BerDecode(c.env, c.env.types[c.top], s.b)
+     IN s.ok => (r.ok /\ BMatches(c.env, c.env.types[c.top], ValueOf(gCase, gVi), r.v))
 
 \* BerTree and X690!DerTree are two formulations of the same tree
 StartIsDer ==
